@@ -115,7 +115,7 @@ Ltac cvp_side Hst He :=
   [> exact Hst | solve_stacks
   | intros ?fr ?Hin; rewrite ?elem_of_app, ?elem_of_cons; solve [repeat (first [exact Hin | right])]
   | intros ?fr ?Hin; repeat (apply elem_of_cons in Hin as [->|Hin]; [reflexivity|]); by apply elem_of_nil in Hin
-  | first [ intros ?e ?w _ ?H1 ?H2; split; assumption | apply evmono_task; first [apply evs_reg_task | apply evs_unreg_task | eapply evs_task_eq_trans; [apply evs_reg_task|apply evs_reg_task] ] | eapply evmono_alloc; reflexivity ]
+  | first [ intros ?e ?w _ ?H1 ?H2; split; assumption | apply evmono_task; first [apply evs_reg_task | apply evs_unreg_task | apply evs_rereg_task | eapply evs_task_eq_trans; [apply evs_reg_task|apply evs_reg_task] ] | eapply evmono_alloc; reflexivity ]
   | first [intros ?d; reflexivity | apply getdw_app_c; reflexivity]
   | first [intros ?k _; reflexivity | eapply getdbl_app_c; reflexivity]
   | exact He ].
